@@ -19,6 +19,8 @@ RULE = (
 	'consistent random schemas from VERIF_SEED as CATS text parsed by the real parser (1-3 inline templates with every member form, '
 	'1-3 named-inline sites each, chains of unnamed inlines of depth 1-3 with struct attributes size/discriminator/initializes/comparer '
 	'that resolve in the expanded layout, globally unique member names) plus both shipped schema sets; then each of 19 breaking '
+	'operator families plus the same template arriving twice in one layout (same unnamed inline twice, diamonds of depth 2-3, base that inlines it, '
+	'own member colliding before/after the inline; unnamed plus named inline of one template as the clean control); each of the '
 	'operator families (several variants each) at every applicable site of the parsed AST. A case is one (schema, operator, site); '
 	'non-trivial = validation ran on it (not counted when the operator has no applicable site).')
 TRUSTED_BASE = [
@@ -250,6 +252,10 @@ def find_sites(models):
 		for index, field in enumerate(model.fields):
 			if isinstance(field, StructInlinePlaceholder):
 				sites.append(('unknown_inlined_type', 'placeholder', name, index))
+				# the same template arriving twice in one layout (the expansion then adds the very same member objects twice)
+				for variant in ('same-unnamed-twice', 'diamond', 'diamond-deep', 'base-that-inlines-it', 'own-member-before', 'own-member-after'):
+					sites.append(('duplicate_via_inline', variant, name, index))
+				sites.append(('inline_twice_neutral', 'unnamed-plus-named', name, index))
 				continue
 			field_type = field.field_type
 			if 'inline' == field.disposition:
@@ -320,6 +326,10 @@ def pick_type(models, kind, avoid=()):
 	return None
 
 
+def rng_disposition(index):
+	return ['inline', 'abstract', None][index % 3]
+
+
 def apply_break(models, site):
 	"""Breaks exactly one reference in place. Returns (member name or None, extra container names) or None when not applicable."""
 	# pylint: disable=too-many-return-statements,too-many-branches,too-many-statements,too-many-locals
@@ -369,6 +379,49 @@ def apply_break(models, site):
 
 	field = model.fields[index]
 	member = str(field.name) if hasattr(field, 'name') else None
+	if operator in ('duplicate_via_inline', 'inline_twice_neutral'):
+		from catparser.ast import Struct, StructField, StructInlinePlaceholder  # pylint: disable=import-outside-toplevel
+		target = str(field.inlined_typename)
+		target_model = next((item for item in models if str(item.name) == target), None)
+		if not isinstance(target_model, Struct):
+			return None
+		position = next(i for i, item in enumerate(models) if item is model)
+
+		def helper(suffix, placeholders, disposition='inline'):
+			# a new struct declared right before the host (declared-before-use is kept), with one member of its own
+			own = StructField([f'{suffix.lower()}_own_{len(models)}', FixedSizeInteger('uint8')])
+			struct = Struct([disposition, f'{struct_name}{suffix}'] + [StructInlinePlaceholder([name]) for name in placeholders] + [own])
+			models.insert(next(i for i, item in enumerate(models) if item is model), struct)
+			return str(struct.name)
+
+		if 'inline_twice_neutral' == operator:
+			if 'inline' != target_model.disposition or any(isinstance(item, StructInlinePlaceholder) for item in target_model.fields):
+				return None
+			site_field = StructField([f'zzsite_{position}', target], 'inline')
+			model.fields.append(site_field)
+			return (None, set())
+		if 'same-unnamed-twice' == variant:
+			model.fields.insert(len(model.fields) if 0 == index % 2 else index + 1, StructInlinePlaceholder([target]))
+		elif 'diamond' == variant:
+			left, right = helper('Lq', [target]), helper('Rq', [target])
+			model.fields[index] = StructInlinePlaceholder([left])
+			model.fields.append(StructInlinePlaceholder([right]))
+		elif 'diamond-deep' == variant:
+			middle = helper('Mq', [target])
+			left, right = helper('Lq', [middle]), helper('Rq', [target], rng_disposition(index))
+			model.fields[index] = StructInlinePlaceholder([left])
+			model.fields.insert(index + 1, StructInlinePlaceholder([right]))
+		elif 'base-that-inlines-it' == variant:
+			base = helper('Bq', [target], rng_disposition(index))
+			model.fields.insert(index + 1 if 0 == index % 2 else len(model.fields), StructInlinePlaceholder([base]))
+		else:
+			candidate = next((item for item in target_model.fields if hasattr(item, 'name') and 'inline' != item.disposition), None)
+			if candidate is None:
+				return None
+			clash = StructField([str(candidate.name), FixedSizeInteger('uint8')])
+			model.fields.insert(index if 'own-member-before' == variant else index + 1, clash)
+			return (str(candidate.name), set())
+		return (None, set())
 	if 'unknown_inlined_type' == operator:
 		if 'placeholder' == variant:
 			field.inlined_typename = 'Unknown9'
@@ -594,6 +647,19 @@ class Checker:
 			return
 		member, _ = result['applied']
 		containers = containers_of(reference, struct_name)
+		if 'inline_twice_neutral' == operator:
+			# an unnamed and a named inline of one template: the names differ by the prefix, nothing is duplicated
+			duplicates = [error for error in list(result['pre'] or []) + list(result['post'] or []) if 'duplicate struct fields' == error[2]]
+			if duplicates or result['pre']:
+				self.fail_property(f'{operator}/{variant} at {struct_name}: an unnamed plus a named inline of one template reports {duplicates or result["pre"]}', case)
+			return
+		if 'duplicate_via_inline' == operator:
+			found = [error for error in list(result['pre'] or []) + list(result['post'] or []) if 'duplicate struct fields' == error[2] and error[0] in containers]
+			if not any(member is None or member in error[1] for error in found):
+				self.fail_property(
+					f'{operator}/{variant} at {struct_name}: the expanded layout holds a member name twice, no stage reports duplicate struct fields for '
+					f'{sorted(containers)}; errors: {(list(result["pre"] or []) + list(result["post"] or []))[:4]}', case)
+				return
 		if 'duplicate_member' == operator:
 			# a renamed member is also visible from arrays that sort their elements (of this struct type) by it
 			from catparser.ast import Array  # pylint: disable=import-outside-toplevel
